@@ -4,6 +4,7 @@ package main
 // drawn per run from the seed). The output is an explicit Plan.
 
 import (
+	"fmt"
 	"strings"
 )
 
@@ -526,6 +527,12 @@ func genPlanOpt(seed uint64, prop string, cold bool) *Plan {
 						continue
 					}
 				}
+				if len(extraAPI) > 0 && r.chance(0.08) {
+					if op, ok := genExtraOp(r, p, func(ver int, mut bool) []int { return usable(t, mut, ver) }); ok {
+						ops = append(ops, op)
+						continue
+					}
+				}
 				k := pickKind()
 				op := Op{K: k, C: -1, D: -1}
 				switch k {
@@ -976,4 +983,46 @@ func genRepeat(r *rng, p *Plan) (nTasks, nParse int) {
 		p.Tasks = append(p.Tasks, ops)
 	}
 	return nTasks, nParse
+}
+
+// genExtraOp: a call of an exported function or method the harness was not
+// written against (generated wrappers), with arguments from the usual
+// families, and - half of the time - the caller scribbling over the results.
+func genExtraOp(r *rng, p *Plan, usable func(ver int, mut bool) []int) (Op, bool) {
+	fn := extraAPI[r.intn(len(extraAPI))]
+	op := Op{K: kExtra, V: fn.Ver, C: -1, D: -1, S: fn.Name}
+	if fn.Recv == 1 {
+		c := usable(fn.Ver, true)
+		if len(c) == 0 {
+			return op, false
+		}
+		op.C = c[r.intn(len(c))]
+	}
+	var args []string
+	for _, k := range fn.Params {
+		switch k {
+		case "string":
+			switch r.intn(4) {
+			case 0:
+				args = append(args, genMetric(r, fn.Ver, 0.2))
+			case 1:
+				args = append(args, genValue(r, fn.Ver, genMetric(r, fn.Ver, 0), 0.2))
+			case 2:
+				args = append(args, genValid(r, fn.Ver))
+			default:
+				args = append(args, genMetric(r, fn.Ver, 0))
+			}
+		case "int":
+			args = append(args, fmt.Sprint([]int{0, 1, 2, 3, 7, 10, 100, -1}[r.intn(8)]))
+		case "float":
+			args = append(args, fmt.Sprint(genRatingArg(r)))
+		default:
+			args = append(args, []string{"true", "false"}[r.intn(2)])
+		}
+	}
+	op.S2 = strings.Join(args, "\x1f")
+	if r.chance(0.5) {
+		op.D = 1
+	}
+	return op, true
 }
